@@ -954,6 +954,30 @@ pub(crate) fn eval<
             .assert_zero(
                 next.mmcs_index_sum - (local.mmcs_index_sum * AB::Expr::TWO + next.mmcs_bit.into()),
             );
+
+        // The chain-start constraint above only reaches rows that are the `next` row of a
+        // transition, i.e. never the first row of the table. Pin the first row's capacity the
+        // same way, so the very first permutation cannot run on a prover-chosen capacity.
+        // The first row has no predecessor to chain from, so it always starts a chain
+        // (`new_start = 1`); gating on `not_merkle` alone keeps the degree at 3.
+        let local_prep_window = builder.preprocessed().clone();
+        let l = local_prep_window.current_slice();
+        let local_cap_tag = l[RATE_EXT];
+        let local_not_merkle = AB::Expr::ONE - l[tail + 3].into();
+        let local_in = &local.perm.inputs;
+        for slot in RATE_EXT..WIDTH_EXT {
+            for d in 0..D {
+                let tag = if slot == RATE_EXT && d == 0 {
+                    local_cap_tag.into()
+                } else {
+                    AB::Expr::ZERO
+                };
+                builder
+                    .when_first_row()
+                    .when(local_not_merkle.clone())
+                    .assert_zero(local_in[slot * D + d] - tag);
+            }
+        }
     } else {
         let next_prep: &Poseidon1PreprocessedRow<WIDTH_EXT, RATE_EXT, AB::Var> =
             next_preprocessed.borrow();
